@@ -241,7 +241,13 @@ func raceMode(job Job) {
 				ops += racew.Engine(seed, per, 0, 1, 0)
 			}
 		case "C16":
-			ops += racew.UCI(seed, per, int(i%4))
+			if (i/4)%3 == 2 {
+				ops += racew.UCIRounds(seed, per, int(i%4))
+			} else {
+				ops += racew.UCI(seed, per, int(i%4))
+			}
+		case "C04":
+			ops += racew.UCIRounds(seed, per, int(i%4))
 		case "C18":
 			w := []int{2, 1, 0, 3}[i%4]
 			if (i/4)%2 == 0 {
